@@ -204,7 +204,7 @@ def model_engines(ex: ObjExec, cnt: Counter) -> list[tuple[str, MObj]]:
             h = height() if callable(height) else height
             t = make_component(ex, c, cnt, name=f"{prefix}{c.name}", height=h)
             if t is None and c.name == "Discrete":
-                t = ex.instantiate(c, [], {"name": f"{prefix}{c.name}", "values": [cnt.sym("x"), cnt.sym("y"), cnt.sym("x"), cnt.sym("y")], **({"height": h} if h is not None else {})}, E0)
+                t = ex.instantiate(c, [], {"name": f"{prefix}{c.name}", "values": [float("-inf"), cnt.sym("y"), cnt.sym("x"), cnt.sym("y"), float("inf"), cnt.sym("y")], **({"height": h} if h is not None else {})}, E0)
             if t is None:
                 raise AnalysisError(f"RT-sem: no model instance for the term class {c.name}")
             res.append(t)
@@ -393,7 +393,8 @@ def field_key(diff: str) -> str:
     return re.sub(r"\[[^\]]*\]", "", head)
 
 
-def roundtrip(check: Check, rule: str = "RT-sem") -> None:
+def roundtrip(check: Check, rule: str = "RT-sem") -> bool:
+    """-> True when every model engine and every model text was decided (nothing outside the interpreter's model)."""
     p = check.program
     exp_c, imp_c = p.cls("FllExporter"), p.cls("FllImporter")
     exp_engine, imp_from = exp_c.lookup("engine"), imp_c.lookup("from_string")
@@ -505,6 +506,7 @@ def roundtrip(check: Check, rule: str = "RT-sem") -> None:
                                                            "normalises": f"texts the exporter would not write ({len(NON_CANONICAL)} documents) are normalised by one import / export cycle"}[aspect] if ok else bad[aspect][0],
                       loc(exp_engine), {}, exhaustive=True, cases=cases)
     check.notes.append(f"{rule}: {cases} model engines, {cnt.n} symbolic numbers, {fields_compared} fields compared")
+    return not undecided
 
 
 def count_fields(v: Any, seen: set[int]) -> int:
